@@ -40,7 +40,7 @@ def strategy(draw):
     order = list(draw(st.permutations([0, 1, 2])))
     case = dict(format=fmt, n=n, fs=fs, order=order, seed=draw(gen.seeds32), prefix=draw(gen.choice(PREFIX)),
                 dfn=draw(st.one_of(st.none(), st.none(), gen.floats(-720, 720), st.sampled_from([0.0, 90.0, 400.0]))),
-                negative=draw(st.sampled_from([None, None, None, "count-more", "count-fewer", "missing", "duplicate", "garbage"])))
+                negative=draw(gen.choice([None, "duplicate", None, "count-more", None, "missing", "count-fewer", None, "garbage", None])))
     if fmt in ("mseed1", "mseed3"):
         case["dtype"] = draw(gen.choice(["int32", "float32", "float64"]))
     if fmt == "sac":
@@ -220,6 +220,8 @@ def build_files(case, tmp, tag="a"):
         items = list(order)
         if neg == "missing":
             items = items[:2]
+        if neg == "duplicate":
+            items = [c for c in items if c != "vt"] + ["vt"]      # duplicate a horizontal (two verticals fail trivially)
         for k, c in enumerate(items):
             x = comps[c][:lens[c]].astype(np.float64)
             code = codes[c]
